@@ -247,6 +247,10 @@ type Opts struct {
 	// SmallShift keeps explicit +towgs84 terms small (<=100 m, <=1 arcsec, <=5 ppm) so that a 2-D round trip,
 	// which cannot carry the ellipsoidal height, stays invertible to millimetres.
 	SmallShift bool
+	// MaxRot caps the rotation terms (arc seconds) of explicit 7-parameter shifts (0 = default 5).
+	MaxRot float64
+	// NoNamedDatum7 avoids the named 7-parameter datums (rotations up to 1.8 arc seconds are fine; kept for symmetry).
+	OnlyDatum bool // always draw a datum (named or towgs84)
 }
 
 var AllProjs = []string{"longlat", "merc", "lcc", "aea", "eqdc", "tmerc", "utm", "krovak"}
@@ -266,12 +270,19 @@ func genEllps(t *rapid.T, d *Def) {
 	}
 }
 
-func genDatum(t *rapid.T, d *Def, small bool) {
+func genDatum(t *rapid.T, d *Def, small bool, maxRot float64, only bool) {
 	D, R, S := 800.0, 5.0, 25.0
 	if small {
 		D, R, S = 100, 1, 5
 	}
-	switch rapid.IntRange(0, 5).Draw(t, "datkind") {
+	if maxRot > 0 {
+		R = maxRot
+	}
+	lo := 0
+	if only {
+		lo = 2
+	}
+	switch rapid.IntRange(lo, 5).Draw(t, "datkind") {
 	case 0, 1:
 		d.DatumKind = ""
 	case 2, 3:
@@ -300,7 +311,7 @@ func GenDef(t *rapid.T, o Opts) Def {
 	d.Proj = rapid.SampledFrom(projs).Draw(t, "proj")
 	genEllps(t, &d)
 	if !o.NoDatum {
-		genDatum(t, &d, o.SmallShift)
+		genDatum(t, &d, o.SmallShift, o.MaxRot, o.OnlyDatum)
 	}
 	x0 := func() float64 {
 		return rapid.OneOf(rapid.SampledFrom([]float64{0, 500000, 2000000, -400000}), rapid.Float64Range(-1e7, 1e7)).Draw(t, "x0")
@@ -326,6 +337,11 @@ func GenDef(t *rapid.T, o Opts) Def {
 		b := rapid.Float64Range(5, 75).Draw(t, "lat2")
 		d.Lat1, d.Lat2 = r6(sgn*math.Min(a, b)), r6(sgn*math.Max(a, b))
 		d.OneSP = rapid.IntRange(0, 3).Draw(t, "onesp") == 0
+		if math.Abs(d.Lat1-d.Lat2) < 0.5 {
+			// nearly equal parallels make the cone constant 0/0-like (ill-conditioned: ulp differences between math
+			// libraries are amplified by 1e10), so they are spelled as the one-parallel case
+			d.OneSP = true
+		}
 		if d.OneSP {
 			d.Lat2 = d.Lat1
 		}
@@ -412,4 +428,99 @@ func GenPosition(t *rapid.T, d Def) (lon, lat float64) {
 		lon += 360
 	}
 	return
+}
+
+// GenDefFor draws a definition whose usable region contains the Greenwich position (lon, lat) in degrees.
+func GenDefFor(t *rapid.T, o Opts, lon, lat float64) Def {
+	al := math.Abs(lat)
+	var projs []string
+	for _, p := range o.Projs {
+		switch p {
+		case "tmerc":
+			if al <= 84 {
+				projs = append(projs, p)
+			}
+		case "utm":
+			if lat >= -80 && lat <= 84 {
+				projs = append(projs, p)
+			}
+		case "merc":
+			if al <= 85 {
+				projs = append(projs, p)
+			}
+		case "lcc", "aea", "eqdc":
+			if al >= 1 && al <= 88 {
+				projs = append(projs, p)
+			}
+		case "krovak":
+			if lat >= 47 && lat <= 52 && lon >= 12 && lon <= 23 {
+				projs = append(projs, p)
+			}
+		default:
+			projs = append(projs, p)
+		}
+	}
+	if len(projs) == 0 {
+		projs = []string{"longlat"}
+	}
+	oo := o
+	oo.Projs = projs
+	if contains(projs, "krovak") || true {
+		oo.NoPM = o.NoPM
+	}
+	d := GenDef(t, oo)
+	if d.Proj == "krovak" {
+		d.PM = "" // the krovak box is given in Greenwich longitudes
+	}
+	rel := lon - d.PMDegrees() // longitude relative to the definition's prime meridian
+	for rel > 180 {
+		rel -= 360
+	}
+	for rel < -180 {
+		rel += 360
+	}
+	switch d.Proj {
+	case "tmerc":
+		d.Lon0 = r6(rel + rapid.Float64Range(-3.4, 3.4).Draw(t, "dlon0"))
+	case "utm":
+		z := int(math.Floor((rel+180)/6)) + 1
+		if z < 1 {
+			z = 1
+		}
+		if z > 60 {
+			z = 60
+		}
+		d.Zone = z
+		d.Lon0 = float64(6*z - 183)
+	case "merc":
+		d.Lon0 = r6(rel + rapid.Float64Range(-100, 100).Draw(t, "dlon0"))
+	case "lcc", "aea", "eqdc":
+		sgn := 1.0
+		if lat < 0 {
+			sgn = -1
+		}
+		lo, hi := math.Max(5, al-25), math.Min(75, al+25)
+		if lo > hi {
+			lo, hi = hi, lo
+		}
+		a := rapid.Float64Range(lo, hi).Draw(t, "flat1")
+		b := rapid.Float64Range(lo, hi).Draw(t, "flat2")
+		d.Lat1, d.Lat2 = r6(sgn*math.Min(a, b)), r6(sgn*math.Max(a, b))
+		if d.OneSP || math.Abs(d.Lat1-d.Lat2) < 0.5 {
+			d.OneSP = true
+			d.Lat2 = d.Lat1
+		}
+		d.Lat0 = r6(sgn * rapid.Float64Range(0, 80).Draw(t, "flat0"))
+		d.Lon0 = r6(rel + rapid.Float64Range(-85, 85).Draw(t, "dlon0"))
+	}
+	return d
+}
+
+func contains(s []string, v string) bool {
+	for _, x := range s {
+		if x == v {
+			return true
+		}
+	}
+	return false
 }
